@@ -23,7 +23,7 @@ TraceAdvance(t) ==
 
 Event(ev) ==
     CASE ev.ev = "Arrive" -> Arrive(ev.e) /\ NewFired = ev.fired
-      [] ev.ev = "Tick" -> Tick /\ buf = ev.es /\ NewFired = ev.fired
+      [] ev.ev = "Tick" -> Tick /\ buf = ev.es /\ NewFired = ev.fired /\ ev.md = ev.es     \* C10: members' metadata, member order
       [] ev.ev = "ConsumerDone" -> ConsumerDone
       [] ev.ev = "TickRelease" -> TickRelease /\ batch = ev.es /\ NewFired = ev.fired
       [] ev.ev = "EmitDone" -> EmitDone(ev.e)
